@@ -68,6 +68,9 @@ def r1_sequential_validate(ck, cx):
 def _slice_of(node):
     if isinstance(node, ast.Subscript) and isinstance(node.slice, ast.Slice) and node.slice.step is None:
         return node.value, node.slice.lower, node.slice.upper
+    if isinstance(node, ast.Subscript) and isinstance(node.slice, ast.Call) and isinstance(node.slice.func, ast.Name) and node.slice.func.id == 'slice' \
+            and len(node.slice.args) == 2 and not node.slice.keywords:
+        return node.value, node.slice.args[0], node.slice.args[1]        # xs[slice(a, b)] is xs[a:b]
     return None
 
 
@@ -178,6 +181,13 @@ def r3_sparse(ck, cx):
             if isinstance(lhs, ast.Call) and callee_name(lhs) in ('set', 'frozenset') and lhs.args:
                 rng = _range_args(lhs.args[0])
             ok = rng is not None and _keys_of_values(r.args[0])
+        elif isinstance(r, ast.Compare) and len(r.ops) == 1 and isinstance(r.ops[0], (ast.LtE, ast.GtE)):
+            # set(range(..)) <= set(keys)   /   set(keys) >= set(range(..)) : the subset test spelt with an operator
+            small, big = (r.left, r.comparators[0]) if isinstance(r.ops[0], ast.LtE) else (r.comparators[0], r.left)
+            if isinstance(small, ast.Call) and callee_name(small) in ('set', 'frozenset') and small.args and isinstance(big, ast.Call) \
+                    and callee_name(big) in ('set', 'frozenset') and big.args:
+                rng = _range_args(small.args[0])
+                ok = rng is not None and _keys_of_values(big.args[0])
         elif isinstance(r, ast.Call) and callee_name(r) == 'all' and r.args and isinstance(r.args[0], (ast.GeneratorExp, ast.ListComp)):
             ge = r.args[0]
             if len(ge.generators) == 1 and not ge.generators[0].ifs and isinstance(ge.elt, ast.Compare) and \
@@ -211,6 +221,25 @@ def r3_sparse(ck, cx):
                 ok = True
                 ck.ob('R3', g.qn, 'reads cells address .. address+count-1', base == P(nz, a) and (hi - lo) == P(nz, cnt),
                       detail='get-range base=%s n=%s' % (base, hi - lo), loc=cx.floc(g))
+        raw_rets = [n_.value for n_ in ast.walk(g.node) if isinstance(n_, ast.Return) and n_.value is not None]
+        if not ok and len(raw_rets) == 1 and isinstance(raw_rets[0], ast.Name):
+            r = raw_rets[0]
+            # the same list built by a loop:  out = []; for i in range(a, a + n): out.append(self.values[i]); return out
+            inits = [n_ for n_ in ast.walk(g.node) if isinstance(n_, ast.Assign) and any(isinstance(t, ast.Name) and t.id == r.id for t in n_.targets)]
+            loops_ = [n_ for n_ in ast.walk(g.node) if isinstance(n_, ast.For) and isinstance(n_.target, ast.Name) and not n_.orelse]
+            if len(inits) == 1 and isinstance(inits[0].value, ast.List) and not inits[0].value.elts and len(loops_) == 1:
+                lp = loops_[0]
+                rng = _range_args(lp.iter)
+                body = [b for b in lp.body if not (isinstance(b, ast.Expr) and isinstance(b.value, ast.Constant))]
+                if rng is not None and len(body) == 1 and isinstance(body[0], ast.Expr) and isinstance(body[0].value, ast.Call) \
+                        and callee_name(body[0].value) == 'append' and U(body[0].value.func.value) == r.id and len(body[0].value.args) == 1:
+                    e = body[0].value.args[0]
+                    if isinstance(e, ast.Subscript) and U(e.value) == 'self.values':
+                        lo, hi = nz.norm(rng[0]), nz.norm(rng[1])
+                        base = nz.norm(e.slice) - Poly.atom(lp.target.id) + lo
+                        ok = True
+                        ck.ob('R3', g.qn, 'reads cells address .. address+count-1', base == P(nz, a) and (hi - lo) == P(nz, cnt),
+                              detail='get-range base=%s n=%s' % (base, hi - lo), loc=cx.floc(g))
         ck.ob('R3', g.qn, 'getValues is [self.values[i] for i in range(address, address+count)]', ok,
               detail='get-shape', loc=cx.floc(g))
     # set (list branch)
@@ -220,7 +249,21 @@ def r3_sparse(ck, cx):
         if isinstance(n, ast.For) and isinstance(n.iter, ast.Call) and callee_name(n.iter) == 'enumerate' and \
                 isinstance(n.target, ast.Tuple) and len(n.target.elts) == 2:
             it = n.iter.args[0]
-            if not (isinstance(it, ast.Name) and it.id == vals):
+
+            def _is_vals(x):
+                # the values argument itself, or the argument wrapped into a one-element list when it is not a list
+                if isinstance(x, ast.Name) and x.id == vals:
+                    return True
+                if isinstance(x, ast.List) and len(x.elts) == 1 and isinstance(x.elts[0], ast.Name) and x.elts[0].id == vals:
+                    return True
+                if isinstance(x, ast.IfExp):
+                    return _is_vals(x.body) and _is_vals(x.orelse)
+                return False
+            if isinstance(it, ast.Name) and it.id != vals:
+                binds_ = [b_.value for b_ in ast.walk(s.node) if isinstance(b_, ast.Assign) and any(isinstance(t, ast.Name) and t.id == it.id for t in b_.targets)]
+                if not (binds_ and all(_is_vals(b_) for b_ in binds_)):
+                    continue
+            elif not (isinstance(it, ast.Name) and it.id == vals):
                 continue
             start = nz.norm(n.iter.args[1]) if len(n.iter.args) > 1 else Poly.const(0)
             iv, vv = n.target.elts
